@@ -209,9 +209,14 @@ def std_pool(task, seed, acc=None):
     gen = std_gen(task, seed)
     part, parts = task['part'], task.get('parts', PARTS)
 
+    # Small pools: every part runs the whole BFS (cheap) and owns the states whose canonical hash falls to it, so no
+    # state is probed twice.  Large pools (depth >= 3 on longer texts): each part expands a slice of the first-level
+    # operations; states reachable through several first operations are then probed by several parts.
+    own_by_hash = parts > 1 and (task['depth'] <= 2 or task['L'] <= 2) and task['layout'] not in ('long',)
+
     def gen_part(v, h):
         ops = gen(v, h)
-        if len(h) == 1:
+        if len(h) == base_len and not own_by_hash:
             return ops[part::parts]
         return ops
     if task['layout'] == 'long':
@@ -220,9 +225,12 @@ def std_pool(task, seed, acc=None):
         seed_hist = dup_hist(task['layout'], text, seed)
     else:
         seed_hist = [[task['layout'], text]]
+    base_len = len(seed_hist)
     pool = bfs([seed_hist], gen_part, task['depth'])
-    if part != 0:
-        pool.items = [(h, v) for (h, v) in pool.items if len(h) > 1]
+    if own_by_hash:
+        pool.items = [(h, v) for (h, v) in pool.items if model.canon_hash(v) % parts == part]
+    elif part != 0:
+        pool.items = [(h, v) for (h, v) in pool.items if len(h) > base_len]
     if acc is not None:
         acc.counters['quarantined'] += pool.quarantined
         acc.counters['generator_transitions'] += pool.transitions
